@@ -12,7 +12,7 @@ import os
 import vlib
 
 PROPS = "Properties_C11"
-RULE = ("every string over {'/','.','a'} up to length 8 (quick) / 11 (thorough), plus random longer strings "
+RULE = ("every string over {'/','.','a'} up to length 9 (quick) / 12 (thorough), plus random longer strings "
         "built from an element pool ('.', '..', '...', 'a..', '..a', names, high bytes) with random separator "
         "runs; non-trivial = contains a dot element, a dot-dot element, a repeated separator or a trailing separator")
 ASSUMPTIONS = [
@@ -21,8 +21,9 @@ ASSUMPTIONS = [
     "observed by ASan on every generated case (exact-size calloc block, exact-size input block)",
     "libstdc++ 12 std::filesystem::path::lexically_normal is the executable meaning of 'the C++17 model'; the Coq "
     "spec std_normal is compared with it on every run (text equality, exhaustive small strings)",
-    "the partial theorem covers the class no_dotdot_tail (<= 1 leading separator, no element ending in '..'); "
-    "the rest of `plain` is covered by the exhaustive/random correspondence only (testing)",
+    "zix_normal_partial covers every C string of `plain` (the complement of the four finding classes) with "
+    "len + 2 < 2^64; on the four classes the model is tied to the code, and the code to the spec, by the "
+    "exhaustive/random correspondence only (testing); the tie model<->code is testing everywhere",
 ]
 ALPHA = [0x2f, 0x2e, 0x61]
 
@@ -84,7 +85,7 @@ def random_paths(r, n, maxel=9):
 
 def validate_spec(ctx):
     """Coq std_normal (extracted) == libstdc++ lexically_normal, as text."""
-    maxlen = 10 if ctx.tier == "thorough" else 8
+    maxlen = 11 if ctx.tier == "thorough" else 8
     cases = exhaustive(maxlen) + random_paths(ctx.rng("specval"), 3000 if ctx.tier == "quick" else 20000)
     rc, std, err = ctx.run_lines([ctx.path("std_path_c11")], cases)
     if rc != 0 or len(std) != len(cases):
@@ -114,7 +115,7 @@ def validate_spec(ctx):
 def gen(ctx, seed, tier):
     r = ctx.rng("gen", seed)
     if seed == ctx.seed:
-        cases = exhaustive(11 if tier == "thorough" else 8)
+        cases = exhaustive(12 if tier == "thorough" else 9)
     else:   # extra seeds of the search: random only (the exhaustive part is seed-independent)
         cases = []
     cases += random_paths(r, 4000 if tier == "quick" else 40000)
@@ -220,7 +221,7 @@ def untokens(toks):
 
 def stats(cases, impl):
     d = {"len_le_4": 0, "len_5_8": 0, "len_9_11": 0, "len_ge_12": 0,
-         "class_A": 0, "class_B": 0, "class_C": 0, "class_D": 0, "plain": 0, "proved_subclass_no_dotdot_tail": 0,
+         "class_A": 0, "class_B": 0, "class_C": 0, "class_D": 0, "plain_proved_class": 0, "subclass_no_dotdot_tail": 0,
          "with_dotdot_element": 0, "absolute": 0}
     for c in cases:
         s = unhex(c)
@@ -231,9 +232,9 @@ def stats(cases, impl):
             d["class_" + k[-1]] += 1
         es = elements(s)
         if not cl:
-            d["plain"] += 1
+            d["plain_proved_class"] += 1
         if not s.startswith(b"//") and not any(e.endswith(b"..") for e in es):
-            d["proved_subclass_no_dotdot_tail"] += 1
+            d["subclass_no_dotdot_tail"] += 1
         if b".." in es:
             d["with_dotdot_element"] += 1
         if s.startswith(b"/"):
